@@ -31,7 +31,7 @@ def run(ctx):
     if not ok:
         ctx.broken.append('harness does not build against /repo: ' + log[-400:])
         vf.finish(ctx, 'proof', [])
-    nlocal, nwf = (40, 35) if not ctx.thorough() else (900, 800)
+    nlocal, nwf = (40, 35) if not ctx.thorough() else (1500, 1400)
     rc, out = vf.sh([os.path.join(vf.BIN, 'c14'), '-seed', str(ctx.seed), '-nlocal', str(nlocal), '-nwf', str(nwf), '-out', ctx.out],
                     env=vf.goenv(), timeout=3000)
     if rc != 0:
